@@ -186,13 +186,82 @@ class Xform(ast.NodeTransformer):
                     names.add(x.func.value.id)
         return sorted(n for n in names if not n.startswith('__'))
 
+    @staticmethod
+    def _state(body, assigned, target_names=()):
+        """names among `assigned` that are genuinely LOOP-CARRIED: possibly read before they are definitely written in the
+        body, or mutated in place (d[k] = v, x.append(...)).  Per-iteration temporaries are not state.
+        (ordered, branch-aware read-before-write analysis on the ORIGINAL body)"""
+        state = set()
+        MUT = ('append', 'update', 'extend', 'add', 'put', 'pop', 'remove', 'clear', 'insert')
+        for s in body:
+            for x in ast.walk(s):
+                if isinstance(x, ast.Subscript) and isinstance(x.ctx, (ast.Store, ast.Del)) and isinstance(x.value, ast.Name):
+                    state.add(x.value.id)
+                elif isinstance(x, ast.Call) and isinstance(x.func, ast.Attribute) and isinstance(x.func.value, ast.Name) and x.func.attr in MUT:
+                    state.add(x.func.value.id)
+
+        def loads(n):
+            return {x.id for x in ast.walk(n) if isinstance(x, ast.Name) and isinstance(x.ctx, ast.Load)}
+
+        def rbw(stmts, defined):
+            reads = set()
+            defined = set(defined)
+            for s in stmts:
+                if isinstance(s, ast.Assign):
+                    reads |= loads(s.value) - defined
+                    for t in s.targets:
+                        if isinstance(t, (ast.Name, ast.Tuple, ast.List)):
+                            defined |= set(_target_names(t))
+                        else:
+                            reads |= loads(t) - defined
+                elif isinstance(s, ast.AugAssign):
+                    reads |= (loads(s.value) | loads(s.target) | ({s.target.id} if isinstance(s.target, ast.Name) else set())) - defined
+                elif isinstance(s, ast.If):
+                    reads |= loads(s.test) - defined
+                    r1, d1 = rbw(s.body, defined)
+                    r2, d2 = rbw(s.orelse, defined)
+                    reads |= r1 | r2
+                    defined = d1 & d2
+                elif isinstance(s, (ast.For, ast.AsyncFor)):
+                    reads |= loads(s.iter) - defined
+                    r1, _ = rbw(s.body, defined | set(_target_names(s.target)))
+                    r2, _ = rbw(s.orelse, defined)
+                    reads |= r1 | r2
+                elif isinstance(s, ast.While):
+                    reads |= loads(s.test) - defined
+                    r1, _ = rbw(s.body, defined)
+                    reads |= r1
+                elif isinstance(s, ast.Try):
+                    r1, d1 = rbw(s.body, defined)
+                    reads |= r1
+                    for h in s.handlers:
+                        rh, _ = rbw(h.body, defined)
+                        reads |= rh
+                    r3, _ = rbw(s.orelse, d1)
+                    r4, _ = rbw(s.finalbody, defined)
+                    reads |= r3 | r4
+                elif isinstance(s, ast.With):
+                    for it in s.items:
+                        reads |= loads(it.context_expr) - defined
+                    r1, d1 = rbw(s.body, defined)
+                    reads |= r1
+                    defined = d1
+                else:
+                    reads |= loads(s) - defined
+            return reads, defined
+
+        r, _ = rbw(body, set(target_names))
+        state |= r
+        return tuple(sorted(state & set(assigned)))
+
     def visit_For(self, node):
         text = ast.unparse(node.iter)
         lid = self._lid('for', text)
+        carried = self._assigned(node.body, _target_names(node.target))
+        state = self._state(node.body, carried, _target_names(node.target))
         self.generic_visit(node)
         self.tmp += 1
         i = self.tmp
-        carried = self._assigned(node.body, _target_names(node.target))
         L, IT = '__L%d' % i, '__it%d' % i
         src = textwrap.dedent('''
         %(IT)s = 0
@@ -208,7 +277,7 @@ class Xform(ast.NodeTransformer):
             %(post)s
         ''') % dict(IT=IT, L=L, lid=lid,
                     pre=('(%s,) = __vc__.prebind(locals(), %r)' % (', '.join(carried), tuple(carried))) if carried else 'pass',
-                    hav=('(%s,) = %s.havoc(locals(), %r)' % (', '.join(carried), L, tuple(carried))) if carried else 'pass',
+                    hav=('(%s,) = %s.havoc(locals(), %r, %r)' % (', '.join(carried), L, tuple(carried), state)) if carried else 'pass',
                     post=('(%s,) = %s.exit(locals(), %r)' % (', '.join(carried), L, tuple(carried))) if carried else 'pass')
         new = ast.parse(src).body
         new[0].value = node.iter
@@ -228,10 +297,11 @@ class Xform(ast.NodeTransformer):
     def visit_While(self, node):
         text = ast.unparse(node.test)
         lid = self._lid('while', text)
+        carried = self._assigned(node.body)
+        state = self._state(node.body, carried)
         self.generic_visit(node)
         self.tmp += 1
         i = self.tmp
-        carried = self._assigned(node.body)
         L = '__L%d' % i
         src = textwrap.dedent('''
         %(L)s = __vc__.wloop(%(lid)r, locals())
@@ -246,7 +316,7 @@ class Xform(ast.NodeTransformer):
             %(post)s
         ''') % dict(L=L, lid=lid,
                     pre=('(%s,) = __vc__.prebind(locals(), %r)' % (', '.join(carried), tuple(carried))) if carried else 'pass',
-                    hav=('(%s,) = %s.havoc(locals(), %r)' % (', '.join(carried), L, tuple(carried))) if carried else 'pass',
+                    hav=('(%s,) = %s.havoc(locals(), %r, %r)' % (', '.join(carried), L, tuple(carried), state)) if carried else 'pass',
                     post=('(%s,) = %s.exit(locals(), %r)' % (', '.join(carried), L, tuple(carried))) if carried else 'pass')
         new = ast.parse(src).body
         iff = new[1]
